@@ -85,7 +85,7 @@ def execute(ops, maxheap, follow=None):
         with deadline(3.0):
             for o in ops:
                 op = o["op"]
-                if op in ("dec", "rem") and o["id"] not in live:
+                if op in ("dec", "rem", "baddec") and o["id"] not in live:
                     # the heap legally popped another one of several equal minima than the generated behaviour
                     # assumed: the target is gone, the rest of the behaviour does not apply to this execution
                     diverged = True
@@ -111,6 +111,15 @@ def execute(ops, maxheap, follow=None):
                     node = nodes[o["id"]]
                     heap.decrease_key(node, ReversedComparator(o["key"]) if maxheap else o["key"])
                     trace.append({"op": "dec", "id": o["id"], "key": o["key"], "len": len(heap), "truth": bool(heap)})
+                elif op == "baddec":
+                    node = nodes[o["id"]]
+                    refused = False
+                    try:
+                        heap.decrease_key(node, ReversedComparator(o["key"]) if maxheap else o["key"])
+                    except ValueError:
+                        refused = True
+                    trace.append({"op": "baddec", "id": o["id"], "key": o["key"], "len": len(heap), "truth": bool(heap),
+                                  "refused": refused})
                 elif op == "clear":
                     heap.clear()
                     live.clear()
@@ -147,6 +156,18 @@ def run_program_adaptive(r, length, keys, maxheap):
                     livekeys.clear()
                     trace.append({"op": "clear", "len": len(heap), "truth": bool(heap)})
                     continue
+                if livekeys and r.random() < 0.06:
+                    i = r.choice(sorted(livekeys))
+                    worse = [k for k in keys if (k < livekeys[i] if maxheap else k > livekeys[i])]
+                    if worse:
+                        k = r.choice(worse)
+                        refused = False
+                        try:
+                            heap.decrease_key(nodes[i], ReversedComparator(k) if maxheap else k)
+                        except ValueError:
+                            refused = True
+                        trace.append({"op": "baddec", "id": i, "key": k, "len": len(heap), "truth": bool(heap), "refused": refused})
+                        continue
                 if not livekeys or c < 0.38:
                     k = r.choice(keys)
                     nodes[nid] = heap.push(Item(nid, k))
